@@ -266,16 +266,22 @@ def b_igmp(L):
   return pkt.igmp(ver_and_type=L["vtype"], max_response_time=L["mrt"], address=ip4(L["group"]))
 
 
+def group_rec(r):
+  return IGMP.GroupRecord(type=r["t"], aux=bytes(r["aux"]), source_addresses=[ip4(a) for a in r["srcs"]],
+                          address=ip4(r["group"]))
+
+
 def b_igmp3(L):
-  recs = [IGMP.GroupRecord(type=r["t"], aux=bytes(r["aux"]), source_addresses=[ip4(a) for a in r["srcs"]],
-                           address=ip4(r["group"])) for r in L["recs"]]
-  return pkt.igmp(ver_and_type=0x22, group_records=recs)
+  return pkt.igmp(ver_and_type=0x22, group_records=[group_rec(r) for r in L["recs"]])
+
+
+def rip_entry(e):
+  return RIP.RIPEntry(address_family=e["af"], route_tag=e["tag"], ip=ip4(e["ip"]), netmask=ip4(e["mask"]),
+                      next_hop=ip4(e["nexthop"]), metric=signed32(e["metric"]))
 
 
 def b_rip(L):
-  ents = [RIP.RIPEntry(address_family=e["af"], route_tag=e["tag"], ip=ip4(e["ip"]), netmask=ip4(e["mask"]),
-                       next_hop=ip4(e["nexthop"]), metric=signed32(e["metric"])) for e in L["entries"]]
-  return pkt.rip(command=L["command"], version=L["version"], entries=ents)
+  return pkt.rip(command=L["command"], version=L["version"], entries=[rip_entry(e) for e in L["entries"]])
 
 
 def b_eapol(L):           # L: completed layer (the library has no length computation here: the caller supplies it)
@@ -345,20 +351,28 @@ def b_dns(L):
   o = pkt.dns(id=L["ident"], qr=bool(L["qr"]), opcode=L["opcode"], aa=bool(L["aa"]), tc=bool(L["tc"]),
               rd=bool(L["rd"]), ra=bool(L["ra"]), z=bool(L["z"]), ad=bool(L["ad"]), cd=bool(L["cd"]), rcode=L["rcode"])
   for q in L["qs"]:
-    o.questions.append(pkt.dns.question(name_str(q["name"]), q["qtype"], q["qclass"]))
+    o.questions.append(dns_q(q))
   for lst, key in ((o.answers, "ans"), (o.authorities, "auth"), (o.additional, "add")):
     for r in L[key]:
-      d = r["rd"]["d"]
-      if r["rd"]["k"] == "name":
-        data = name_str(d)
-      elif r["type"] == 1 and len(d) == 4:
-        data = ip4(d)
-      elif r["type"] == 28 and len(d) == 16:
-        data = ip6(d)
-      else:
-        data = bytes(d)
-      lst.append(pkt.dns.rr(name_str(r["name"]), r["type"], r["class"], u(r["ttl"]), 0, data))
+      lst.append(dns_rr(r))
   return o
+
+
+def dns_q(q):
+  return pkt.dns.question(name_str(q["name"]), q["qtype"], q["qclass"])
+
+
+def dns_rr(r):
+  d = r["rd"]["d"]
+  if r["rd"]["k"] == "name":
+    data = name_str(d)
+  elif r["type"] == 1 and len(d) == 4:
+    data = ip4(d)
+  elif r["type"] == 28 and len(d) == 16:
+    data = ip6(d)
+  else:
+    data = bytes(d)
+  return pkt.dns.rr(name_str(r["name"]), r["type"], r["class"], u(r["ttl"]), 0, data)
 
 
 def v_dns(o):
@@ -463,6 +477,65 @@ def build(stack):
     else:
       outer.payload = inner
   return objs[0]
+
+
+# --------------------------------------------------------------------------
+# edits of an object that has been serialised before (PktWireEdits.tla)
+
+# container name -> (attribute holding the list, item constructor) per protocol
+CONTAINERS = {("tcp", "opts"): ("options", tcp_opt), ("lldp", "tlvs"): ("tlvs", tlv),
+              ("ipv6", "ext"): ("extension_headers", ext_hdr), ("dns", "qs"): ("questions", dns_q),
+              ("dns", "ans"): ("answers", dns_rr), ("igmp3", "recs"): ("group_records", group_rec),
+              ("rip", "entries"): ("entries", rip_entry), ("ns", "opts"): ("options", nd_opt),
+              ("na", "opts"): ("options", nd_opt), ("rs", "opts"): ("options", nd_opt), ("ra", "opts"): ("options", nd_opt)}
+# field name -> attribute where they differ (same tables as the views)
+FIELD_ATTR = {("vlan", "vid"): "id", ("ipv4", "opts"): "raw_options", ("echo", "seqno"): "seq", ("ipv6", "hlim"): "hop_limit",
+              ("echo6", "ident"): "id", ("igmp", "group"): "address", ("dns", "ident"): "id", ("unreach", "mtu"): "next_mtu",
+              ("toobig", "mtu4"): "mtu"}
+
+
+def _convert(cur, val):
+  """a spec value (number or byte list) as the type the attribute currently holds"""
+  if not isinstance(val, list):
+    return val
+  if isinstance(cur, EthAddr):
+    return mac(val)
+  if isinstance(cur, IPAddr6):
+    return ip6(val)
+  if isinstance(cur, IPAddr):
+    return ip4(val)
+  if isinstance(cur, int):
+    return u(val)
+  return bytes(val)
+
+
+def apply_edit(o, p, e):
+  """perform edit e (PktWireEdits.tla) on the library object o of protocol p through its public attributes"""
+  op, c = e["op"], e["c"]
+  if op == "setf":
+    attr = FIELD_ATTR.get((p, c), c)
+    setattr(o, attr, _convert(getattr(o, attr), e["v"]["x"]))
+    return
+  if p == "dhcp":                       # options live in a dictionary keyed by option code
+    keys = list(o.options.keys())
+    if op == "delete":
+      del o.options[keys[e["i"] - 1]]
+    else:
+      k = e["v"]["k"]
+      if (op == "replace") != (k in o.options) or (op == "replace" and keys[e["i"] - 1] != k):
+        raise ValueError("edit does not fit the option dictionary")
+      o.options[k] = dhcp_opt(k, e["v"]["d"])
+    return
+  attr, make = CONTAINERS[(p, c)]
+  lst = getattr(o, attr)
+  if op == "replace":
+    lst[e["i"] - 1] = make(e["v"])
+  elif op == "add":
+    lst.insert(e["i"] - 1, make(e["v"]))
+  elif op == "delete":
+    del lst[e["i"] - 1]
+  else:
+    raise ValueError(op)
 
 
 # --------------------------------------------------------------------------
@@ -658,6 +731,7 @@ class Adapter(object):
     W.load_layouts(layouts)
     self.stack = None
     self.obj = None
+    self.last_edit = None
     self.wire = None
     self.parsed = None
 
@@ -752,6 +826,23 @@ class Adapter(object):
       return {"ok": True}
     if a == "Repack":
       return self._split(self.parsed.pack())
+    if a == "Change":
+      live = self.parsed if self.parsed is not None else self.obj
+      o = live
+      for _ in range(args["li"] - 1):
+        o = o.extra if isinstance(o, pkt.igmp) else o.next
+      p = self.stack[args["li"] - 1]["p"]
+      apply_edit(o, p, args)
+      self.last_edit = "%s.%s:%s" % (p, args["c"], args["op"])
+      try:
+        self.stack = W.apply_edit(self.stack, args)     # only used to name fields in failure signatures
+      except Exception:
+        pass
+      return {"ok": True}
+    if a == "PackAgain":
+      return self._split(self.obj.pack())
+    if a == "RepackAgain":
+      return self._split(self.parsed.pack())
     raise ValueError(a)
 
   # -- failure classification
@@ -768,7 +859,9 @@ class Adapter(object):
       else:
         sig["innermost"] = _innermost(stack)
       return sig
-    if st["a"] in ("Pack", "Repack"):
+    if self.last_edit:
+      sig["edit"] = self.last_edit
+    if st["a"] in ("Pack", "Repack", "PackAgain", "RepackAgain"):
       eh, oh = exp["hdr"], obs.get("hdr")
       if not isinstance(oh, list):
         sig["observed"] = str(oh)
